@@ -73,11 +73,12 @@ type c01Cfg struct {
 	ErrMode  string // page | api | json | button
 	Bypass   string // none | route | ip | preflight | all
 	Expire   string // 168h | 2h
+	Refresh  string // 0 | 1h   (--cookie-refresh: sessions older than that are refreshed / re-validated before use)
 	Static   bool   // static://202 at "/" (the second upstream stays at /b/)
 }
 
 func (c c01Cfg) String() string {
-	s := fmt.Sprintf("store=%s jwt=%s htpasswd=%s rules=%s err=%s bypass=%s expire=%s", c.Store, c.JWT, c.Htpasswd, c.Rules, c.ErrMode, c.Bypass, c.Expire)
+	s := fmt.Sprintf("store=%s jwt=%s htpasswd=%s rules=%s err=%s bypass=%s expire=%s refresh=%s", c.Store, c.JWT, c.Htpasswd, c.Rules, c.ErrMode, c.Bypass, c.Expire, c.Refresh)
 	if c.Static {
 		s += " static"
 	}
@@ -92,10 +93,11 @@ var c01Dims = [][]string{
 	{"page", "api", "json", "button"},
 	{"none", "route", "ip", "preflight", "all"},
 	{"168h", "2h"},
+	{"0", "1h"},
 }
 
 func c01CfgOf(v []int) c01Cfg {
-	return c01Cfg{Store: c01Dims[0][v[0]], JWT: c01Dims[1][v[1]], Htpasswd: c01Dims[2][v[2]], Rules: c01Dims[3][v[3]], ErrMode: c01Dims[4][v[4]], Bypass: c01Dims[5][v[5]], Expire: c01Dims[6][v[6]]}
+	return c01Cfg{Store: c01Dims[0][v[0]], JWT: c01Dims[1][v[1]], Htpasswd: c01Dims[2][v[2]], Rules: c01Dims[3][v[3]], ErrMode: c01Dims[4][v[4]], Bypass: c01Dims[5][v[5]], Expire: c01Dims[6][v[6]], Refresh: c01Dims[7][v[7]]}
 }
 
 // c01Pairwise: greedy covering array — every pair of values of every two dimensions appears in some row.
@@ -163,7 +165,7 @@ func c01Configs(run *vfRun) []c01Cfg {
 	for _, r := range c01Pairwise(run.Rng) {
 		add(c01CfgOf(r))
 	}
-	extra := run.Env.Pick(4, 60)
+	extra := run.Env.Pick(4, 24)
 	for k := 0; k < extra; k++ {
 		row := make([]int, len(c01Dims))
 		for d := range row {
@@ -172,8 +174,8 @@ func c01Configs(run *vfRun) []c01Cfg {
 		add(c01CfgOf(row))
 	}
 	// the static upstream (legacy flags only allow it at "/", so it is the sole upstream of its instance)
-	add(c01Cfg{Store: "cookie", JWT: "on", Htpasswd: "on", Rules: "domain", ErrMode: "page", Bypass: "route", Expire: "168h", Static: true})
-	add(c01Cfg{Store: "redis", JWT: "off", Htpasswd: "off", Rules: "none", ErrMode: "json", Bypass: "preflight", Expire: "168h", Static: true})
+	add(c01Cfg{Store: "cookie", JWT: "on", Htpasswd: "on", Rules: "domain", ErrMode: "page", Bypass: "route", Expire: "168h", Refresh: "0", Static: true})
+	add(c01Cfg{Store: "redis", JWT: "off", Htpasswd: "off", Rules: "none", ErrMode: "json", Bypass: "preflight", Expire: "168h", Refresh: "1h", Static: true})
 	// inotify instances are limited (128 per user): at most 50 htpasswd watchers in one process
 	n := 0
 	for i := range out {
@@ -278,7 +280,13 @@ type c01Shared struct {
 	Sib      map[string]*c01Sess
 	Deleted  *c01Sess // redis ticket whose entry was deleted
 	Tok      map[string]string
-	redisMu  sync.Mutex
+	// Stale: sessions issued 3 h ago whose ID token lived 2 s and that have no refresh token; index -1 = cookie store
+	// (stateless, shared), otherwise one per Redis-store instance (a refusal removes the entry).
+	Stale      map[int]*c01Sess
+	staleReady time.Time
+	redisMu    sync.Mutex
+	statMu     sync.Mutex
+	kindStat   map[string]*[3]int64 // credential kind -> requests, served, refused
 	owned    map[string]bool
 }
 
@@ -371,7 +379,7 @@ func c01SHA(pw string) string {
 	return "{SHA}" + base64.StdEncoding.EncodeToString(s[:])
 }
 
-func c01Setup(run *vfRun, w *vfWorld) *c01Shared {
+func c01Setup(run *vfRun, w *vfWorld, cfgs []c01Cfg) *c01Shared {
 	sh := &c01Shared{W: w, IdP2: vfNewIdP(), UpB: w.Upstream("b"), Issuer: map[string]*vfProxy{}, Sibling: map[string]*vfProxy{},
 		Old400: map[string]*c01Sess{}, Old3: map[string]*c01Sess{}, Cross: map[string]*c01Sess{}, Sib: map[string]*c01Sess{}, Tok: map[string]string{}}
 	w.OnClose(sh.IdP2.Close)
@@ -386,6 +394,9 @@ func c01Setup(run *vfRun, w *vfWorld) *c01Shared {
 	for _, store := range []string{"cookie", "redis"} {
 		sh.Issuer[store] = w.MustProxy("--session-store-type="+store, "--redis-connection-url="+w.RedisURL())
 		sh.Sibling[store] = w.MustProxy("--session-store-type="+store, "--redis-connection-url="+w.RedisURL(), "--cookie-secret="+c01Secret2)
+	}
+	sh.mintStale(run, cfgs) // first, so that their short-lived ID tokens expire while the rest of the set-up runs
+	for _, store := range []string{"cookie", "redis"} {
 		sh.Old400[store] = must(sh.mint(sh.Issuer[store], c01Alice, now.Add(-400*time.Hour)))
 		sh.Old3[store] = must(sh.mint(sh.Issuer[store], c01Alice, now.Add(-3*time.Hour)))
 		sh.Cross[store] = must(sh.mint(sh.Issuer[store], c01Alice, time.Time{}))
@@ -422,9 +433,33 @@ func c01Setup(run *vfRun, w *vfWorld) *c01Shared {
 	return sh
 }
 
+// mintStale runs in the serial set-up phase (it imposes the issue time and shortens the IdP's ID-token lifetime).
+func (sh *c01Shared) mintStale(run *vfRun, cfgs []c01Cfg) {
+	sh.Stale = map[int]*c01Sess{}
+	sh.W.IdP.Set(func(c *vfIdPCfg) { c.IDTokenTTL = 3 * time.Second })
+	defer sh.W.IdP.Set(func(c *vfIdPCfg) { c.IDTokenTTL = time.Hour })
+	id := c01Alice
+	id.NoRefreshToken = true
+	at := time.Now().Add(-3 * time.Hour)
+	one := func(idx int, store string) {
+		s, err := sh.mint(sh.Issuer[store], id, at)
+		if err != nil {
+			run.T.Fatalf("c01 set-up (stale session): %v", err)
+		}
+		sh.Stale[idx] = s
+	}
+	one(-1, "cookie")
+	for i, c := range cfgs {
+		if c.Store == "redis" {
+			one(i, "redis")
+		}
+	}
+	sh.staleReady = time.Now().Add(5 * time.Second) // their 3 s ID tokens have expired by then, with seconds of margin
+}
+
 func (c c01Cfg) flags(sh *c01Shared) []string {
 	w := sh.W
-	f := []string{"--session-store-type=" + c.Store, "--cookie-expire=" + c.Expire}
+	f := []string{"--session-store-type=" + c.Store, "--cookie-expire=" + c.Expire, "--cookie-refresh=" + c.Refresh}
 	if c.Store == "redis" {
 		f = append(f, "--redis-connection-url="+w.RedisURL())
 	}
@@ -490,6 +525,24 @@ type c01Cred struct {
 
 const c01B64 = "ABCDEFGHIJKLMNOPQRSTUVWXYZabcdefghijklmnopqrstuvwxyz0123456789-_"
 
+// c01Violation forwards at most two witnesses per signature to the run (the rig stops writing witnesses after 25
+// violations in total, so a flood of one class must not hide the first witness of another); everything is counted.
+var (
+	c01ViolMu   sync.Mutex
+	c01ViolSeen = map[string]int{}
+)
+
+func c01Violation(run *vfRun, sig, summary string, detail interface{}) {
+	c01ViolMu.Lock()
+	c01ViolSeen[sig]++
+	n := c01ViolSeen[sig]
+	c01ViolMu.Unlock()
+	run.Count("violations["+sig+"]", 1)
+	if n <= 2 {
+		run.Violation(sig, summary, detail)
+	}
+}
+
 // c01Tamper changes exactly one character of a signed cookie value "payload|timestamp|signature" such that the decoded
 // content really differs (the last payload character of a base64 string may carry unused bits and is avoided).
 func c01Tamper(v string, part int, rng *mrand.Rand) (string, string) {
@@ -528,7 +581,7 @@ func c01RandB64(n int) string {
 	return base64.URLEncoding.EncodeToString(b)
 }
 
-func c01BuildCreds(run *vfRun, sh *c01Shared, cfg c01Cfg, p *vfProxy, rng *mrand.Rand) ([]*c01Cred, error) {
+func c01BuildCreds(run *vfRun, sh *c01Shared, cfg c01Cfg, idx int, p *vfProxy, rng *mrand.Rand) ([]*c01Cred, error) {
 	var out []*c01Cred
 	ck := func(v string) [][2]string { return [][2]string{{c01CookieName, v}} }
 	other := "redis"
@@ -606,7 +659,27 @@ func c01BuildCreds(run *vfRun, sh *c01Shared, cfg c01Cfg, p *vfProxy, rng *mrand
 	} else {
 		old3.Kind, old3.Undecodable = "expired-3h", true
 	}
-	add(old3)
+	if cfg.Refresh == "0" || !old3.Valid {
+		add(old3) // with a refresh period the outcome would depend on the provider's refresh protocol (C12), not on entitlement
+	}
+	// issued 3 h ago, ID token expired, no refresh token: good while no refresh period is configured (the cookie lifetime
+	// governs), dead as soon as sessions older than the refresh period are re-validated before use
+	stale := sh.Stale[-1]
+	if cfg.Store == "redis" {
+		stale = sh.Stale[idx]
+	}
+	if stale != nil {
+		c := &c01Cred{Kind: "stale-idtoken-expired", How: "real login 3 h ago (imposed) whose ID token expired after 3 s and which has no refresh token", Cookies: ck(stale.Value), Ident: c01IdentOf(c01Alice)}
+		switch {
+		case cfg.Expire != "168h":
+			c.Undecodable = true
+		case cfg.Refresh == "0":
+			c.Valid, c.sess = true, stale
+		default:
+			c.sess = stale // refused after re-validation; the Redis entry it loses is put back before the next request
+		}
+		add(c)
+	}
 	add(&c01Cred{Kind: "other-secret", How: "real login at a sibling instance with another --cookie-secret (same store)", Cookies: ck(sh.Sib[cfg.Store].Value), Undecodable: true})
 	add(&c01Cred{Kind: "other-store", How: "live session cookie of a " + other + "-store instance with the same secret", Cookies: ck(sh.Cross[other].Value), Undecodable: true})
 	add(&c01Cred{Kind: "other-store", How: "session cookie of a " + other + "-store instance with another secret", Cookies: ck(sh.Sib[other].Value), Undecodable: true})
@@ -670,7 +743,7 @@ func c01BuildCreds(run *vfRun, sh *c01Shared, cfg c01Cfg, p *vfProxy, rng *mrand
 			}
 		}
 		if r.Code != 302 || s.Value == "" {
-			run.Violation("c01:valid-credential-not-served", fmt.Sprintf("htpasswd form login with the right password was not accepted (status %d)", r.Code), map[string]interface{}{"flags": p.Flags, "config": cfg.String(), "status": r.Code})
+			c01Violation(run, "c01:valid-credential-not-served", fmt.Sprintf("htpasswd form login with the right password was not accepted (status %d)", r.Code), map[string]interface{}{"flags": p.Flags, "config": cfg.String(), "status": r.Code})
 		} else {
 			add(&c01Cred{Kind: "session-htpasswd-form", How: "session cookie obtained by POSTing bob's user name and password to /oauth2/sign_in", Cookies: ck(s.Value), Valid: true, Ident: bob, sess: s})
 		}
@@ -682,7 +755,7 @@ func c01BuildCreds(run *vfRun, sh *c01Shared, cfg c01Cfg, p *vfProxy, rng *mrand
 		r := p.Do(vfNewReq("POST", "/oauth2/sign_in").WithBody("application/x-www-form-urlencoded", []byte(body)))
 		run.Count("form_logins_invalid", 1)
 		if c01IssuesSession(r) {
-			run.Violation("c01:session-cookie-issued-without-credential", "POST /oauth2/sign_in with "+body+" (htpasswd "+cfg.Htpasswd+") answered with a session cookie", map[string]interface{}{"flags": p.Flags, "config": cfg.String(), "body": body, "status": r.Code, "set_cookie": r.SetCookies()})
+			c01Violation(run, "c01:session-cookie-issued-without-credential", "POST /oauth2/sign_in with "+body+" (htpasswd "+cfg.Htpasswd+") answered with a session cookie", map[string]interface{}{"flags": p.Flags, "config": cfg.String(), "body": body, "status": r.Code, "set_cookie": r.SetCookies()})
 		}
 		if !htOn {
 			break
@@ -801,7 +874,9 @@ type c01Inst struct {
 	label string
 }
 
-func (in *c01Inst) do(cred *c01Cred, sp c01Spec, id string) {
+func (in *c01Inst) do(cred *c01Cred, sp c01Spec, id string) { in.doAttempt(cred, sp, id, 0) }
+
+func (in *c01Inst) doAttempt(cred *c01Cred, sp c01Spec, id string, attempt int) {
 	run, sh, cfg := in.run, in.sh, in.cfg
 	if cred.sess != nil {
 		sh.restore(cred.sess)
@@ -839,6 +914,19 @@ func (in *c01Inst) do(cred *c01Cred, sp c01Spec, id string) {
 	bypass := in.byp.match(sp.Method, sp.Target, remote)
 	entitled := bypass != "" || (cred.Valid && cred.Authorised)
 	mustServe := cred.Valid && cred.Authorised
+	if entitled && class == "proxy" && (resp.Code == 502 || resp.Code == 504) && attempt < 3 {
+		// the proxy did forward the (entitled) request but the fake upstream could not be reached: an overloaded box,
+		// not a verdict about entitlement. Try again; a persistent failure makes the case inconclusive.
+		run.Count("upstream_unreachable_retries", 1)
+		time.Sleep(200 * time.Millisecond)
+		in.doAttempt(cred, sp, fmt.Sprintf("%s-r%d", id, attempt+1), attempt+1)
+		return
+	}
+	if entitled && class == "proxy" && (resp.Code == 502 || resp.Code == 504) {
+		run.Eval("")
+		run.Inconclusive("fake upstream unreachable (502/504) for an entitled request, 4 attempts")
+		return
+	}
 
 	wit := func() c01Witness {
 		return c01Witness{Config: cfg.String(), Flags: in.p.Flags, Credential: cred, Request: req, Driver: driver, Bypass: bypass, Entitled: entitled, Status: resp.Code,
@@ -861,9 +949,27 @@ func (in *c01Inst) do(cred *c01Cred, sp c01Spec, id string) {
 	run.Count("requests_"+class, 1)
 
 	if resp.Panic != "" {
-		run.Violation("c01:panic", "request handling panicked: "+desc.String(), wit())
+		c01Violation(run, "c01:panic", "request handling panicked: "+desc.String(), wit())
 		return
 	}
+	defer func() {
+		sh.statMu.Lock()
+		if sh.kindStat == nil {
+			sh.kindStat = map[string]*[3]int64{}
+		}
+		st := sh.kindStat[cred.Kind]
+		if st == nil {
+			st = &[3]int64{}
+			sh.kindStat[cred.Kind] = st
+		}
+		st[0]++
+		if len(hits) > 0 || resp.Code == 202 || (class == "userinfo" && resp.Code == 200) {
+			st[1]++
+		} else if class != "signout" {
+			st[2]++
+		}
+		sh.statMu.Unlock()
+	}()
 
 	// what was observed
 	served, ident, hasIdent := false, c01Ident{}, false
@@ -874,7 +980,7 @@ func (in *c01Inst) do(cred *c01Cred, sp c01Spec, id string) {
 			ident = c01Ident{User: hits[0].Header.Get("X-Forwarded-User"), Email: hits[0].Header.Get("X-Forwarded-Email")}
 			hasIdent = ident.User != "" || ident.Email != ""
 			if len(hits) != 1 {
-				run.Violation("c01:upstream-hit-count", fmt.Sprintf("%d upstream requests for one client request: %s", len(hits), desc.String()), wit())
+				c01Violation(run, "c01:upstream-hit-count", fmt.Sprintf("%d upstream requests for one client request: %s", len(hits), desc.String()), wit())
 			}
 		}
 	case "auth":
@@ -886,31 +992,31 @@ func (in *c01Inst) do(cred *c01Cred, sp c01Spec, id string) {
 				Email string `json:"email"`
 			}
 			if err := json.Unmarshal(resp.Body, &ui); err != nil {
-				run.Violation("c01:refusal-shape", "userinfo answered 200 with a body that is neither {} nor user info: "+desc.String(), wit())
+				c01Violation(run, "c01:refusal-shape", "userinfo answered 200 with a body that is neither {} nor user info: "+desc.String(), wit())
 				return
 			}
 			ident, hasIdent, served = c01Ident{User: ui.User, Email: ui.Email}, true, true
 		}
 	}
 	if class != "proxy" && len(hits) > 0 {
-		run.Violation("c01:served-without-entitlement", "an endpoint of the proxy itself reached an upstream: "+desc.String(), wit())
+		c01Violation(run, "c01:served-without-entitlement", "an endpoint of the proxy itself reached an upstream: "+desc.String(), wit())
 		return
 	}
 
 	// (1) served => entitled
 	if served && !entitled {
 		run.Count("violations_served", 1)
-		run.Violation("c01:served-without-entitlement", "served although the reference model does not entitle it: "+desc.String(), wit())
+		c01Violation(run, "c01:served-without-entitlement", "served although the reference model does not entitle it: "+desc.String(), wit())
 		return
 	}
 	// (2) identity only from a presented valid credential
 	if hasIdent {
 		if !cred.Valid {
-			run.Violation("c01:identity-without-credential", fmt.Sprintf("identity %+v disclosed/forwarded although no presented credential is valid: %s", ident, desc.String()), wit())
+			c01Violation(run, "c01:identity-without-credential", fmt.Sprintf("identity %+v disclosed/forwarded although no presented credential is valid: %s", ident, desc.String()), wit())
 			return
 		}
 		if ident.User != cred.Ident.User || ident.Email != cred.Ident.Email {
-			run.Violation("c01:wrong-identity-served", fmt.Sprintf("identity %+v instead of %+v: %s", ident, cred.Ident, desc.String()), wit())
+			c01Violation(run, "c01:wrong-identity-served", fmt.Sprintf("identity %+v instead of %+v: %s", ident, cred.Ident, desc.String()), wit())
 			return
 		}
 	}
@@ -926,11 +1032,11 @@ func (in *c01Inst) do(cred *c01Cred, sp c01Spec, id string) {
 			ok = resp.Code == 200
 		}
 		if ok && (class == "proxy" && len(hits) > 0 || class == "userinfo" && len(resp.Body) > 0) && !hasIdent {
-			run.Violation("c01:wrong-identity-served", "served without the identity of the valid credential: "+desc.String(), wit())
+			c01Violation(run, "c01:wrong-identity-served", "served without the identity of the valid credential: "+desc.String(), wit())
 			return
 		}
 		if !ok {
-			run.Violation("c01:valid-credential-not-served", fmt.Sprintf("valid and authorised credential refused with status %d: %s", resp.Code, desc.String()), wit())
+			c01Violation(run, "c01:valid-credential-not-served", fmt.Sprintf("valid and authorised credential refused with status %d: %s", resp.Code, desc.String()), wit())
 			return
 		}
 		run.Count("served_valid_credential", 1)
@@ -948,7 +1054,7 @@ func (in *c01Inst) do(cred *c01Cred, sp c01Spec, id string) {
 	// (4) refusal shape
 	run.Count("refused", 1)
 	if c01IssuesSession(resp) {
-		run.Violation("c01:session-cookie-issued-without-credential", "a refused request was answered with a session cookie: "+desc.String(), wit())
+		c01Violation(run, "c01:session-cookie-issued-without-credential", "a refused request was answered with a session cookie: "+desc.String(), wit())
 		return
 	}
 	okShape := resp.Code == 401 || resp.Code == 403
@@ -958,25 +1064,25 @@ func (in *c01Inst) do(cred *c01Cred, sp c01Spec, id string) {
 	}
 	if !okShape {
 		if resp.Code == 500 && cfg.Store == "redis" && cred.Undecodable && class == "proxy" {
-			run.Violation("c01:redis-undecodable-ticket-500", "Redis store: a request whose session cookie is not a valid ticket is answered 500 instead of the sign-in page (cookie is cleared, nothing is served): "+desc.String(), wit())
+			c01Violation(run, "c01:redis-undecodable-ticket-500", "Redis store: a request whose session cookie is not a valid ticket is answered 500 instead of the sign-in page (cookie is cleared, nothing is served): "+desc.String(), wit())
 			return
 		}
-		run.Violation("c01:refusal-shape", fmt.Sprintf("refused with status %d (expected 401, 403 or a redirect to the IdP): %s", resp.Code, desc.String()), wit())
+		c01Violation(run, "c01:refusal-shape", fmt.Sprintf("refused with status %d (expected 401, 403 or a redirect to the IdP): %s", resp.Code, desc.String()), wit())
 		return
 	}
 	run.SampleEvery(20011, func() interface{} { return wit() })
 }
 
-// c01Primary credentials get the full request matrix, the others a seeded fifth (quick) / half (thorough) of it.
-var c01Primary = map[string]bool{"none": true, "session": true, "session-foreign-domain": true, "bearer-valid": true, "basic-valid": true, "other-secret": true,
-	"tampered-part2": true, "expired-400h": true, "sig-stripped": true}
+// c01Primary credentials get the full request matrix, the others a seeded sixth (quick) / half (thorough) of it.
+var c01Primary = map[string]bool{"none": true, "session": true, "session-foreign-domain": true, "bearer-valid": true, "basic-valid": true,
+	"tampered-part2": true, "stale-idtoken-expired": true}
 
 func (in *c01Inst) runCred(ci int, specs []c01Spec) {
 	run := in.run
 	cred := in.creds[ci]
 	thin := uint64(0) // keep one request in `thin` of the matrix for the secondary credential kinds
 	if !c01Primary[cred.Kind] {
-		thin = uint64(run.Env.Pick(5, 2))
+		thin = uint64(run.Env.Pick(6, 2))
 	}
 	for si, sp := range specs {
 		if cred.Kind == "aged-3h" && cred.Valid && (c01EndpointClass(sp.Target) == "signout" || !cred.Authorised) {
@@ -1015,7 +1121,7 @@ func c01RunBatch(run *vfRun, sh *c01Shared, cfgs []c01Cfg, base int) {
 	vfParallel(len(insts), 16, func(i int) {
 		in := insts[i]
 		rng := mrand.New(mrand.NewSource(run.Env.Seed*1000003 + int64(in.idx)))
-		creds, err := c01BuildCreds(run, sh, in.cfg, in.p, rng)
+		creds, err := c01BuildCreds(run, sh, in.cfg, in.idx, in.p, rng)
 		if err != nil {
 			run.T.Errorf("c01: credentials for {%s}: %v", in.cfg.String(), err)
 			return
@@ -1036,6 +1142,9 @@ func c01RunBatch(run *vfRun, sh *c01Shared, cfgs []c01Cfg, base int) {
 		}
 	}
 	specs := c01Specs(run.Env.Thorough())
+	if d := time.Until(sh.staleReady); d > 0 {
+		time.Sleep(d) // set-up only: lets the short-lived ID tokens of the stale sessions expire; no verdict depends on timing
+	}
 	vfParallel(len(jobs), 16, func(k int) { jobs[k].in.runCred(jobs[k].ci, specs) })
 	run.Count("ms_building_instances", t1.Sub(t0).Milliseconds())
 	run.Count("ms_making_credentials", t2.Sub(t1).Milliseconds())
@@ -1052,11 +1161,12 @@ func TestVerif_C01(t *testing.T) {
 		"being served because of a bypass alone is counted, not demanded (C15)", "inotify limit: at most 50 htpasswd instances per process")
 	w := vfNewWorld(t)
 	defer w.Close()
-	sh := c01Setup(run, w)
 	cfgs := c01Configs(run)
 	run.Extra("configurations", len(cfgs))
+	sh := c01Setup(run, w, cfgs)
 	batch := 16
 	for lo := 0; lo < len(cfgs); lo += batch {
+
 		hi := lo + batch
 		if hi > len(cfgs) {
 			hi = len(cfgs)
@@ -1070,10 +1180,17 @@ func TestVerif_C01(t *testing.T) {
 		names = append(names, c.String())
 	}
 	sort.Strings(names)
-	if len(names) > 6 {
-		names = names[:6]
+	if len(names) > 40 {
+		names = names[:40]
 	}
 	run.Extra("configurations_sample", names)
+	sh.statMu.Lock()
+	stat := map[string]string{}
+	for k, v := range sh.kindStat {
+		stat[k] = fmt.Sprintf("requests=%d served=%d refused=%d", v[0], v[1], v[2])
+	}
+	sh.statMu.Unlock()
+	run.Extra("per_credential_kind", stat)
 	// a run that saw (almost) nothing served or nothing refused proves nothing
 	for _, c := range []string{"served_valid_credential", "refused", "served_by_bypass_route", "served_by_bypass_ip", "served_by_bypass_preflight", "refused_by_redirect_to_idp", "wire_requests"} {
 		if run.Counter(c) < 20 && run.Violations() == 0 {
@@ -1081,5 +1198,5 @@ func TestVerif_C01(t *testing.T) {
 			t.Fail()
 		}
 	}
-	run.Finish(int64(run.Env.Pick(60000, 1000000)), run.Env.Pick(500, 800))
+	run.Finish(int64(run.Env.Pick(25000, 200000)), run.Env.Pick(750, 800))
 }
